@@ -79,6 +79,9 @@ func recheck(oracle string, ops, res []string) (bool, string) {
 				if f := strings.Fields(ops[i]); len(f) > 2 && f[1] == "history" {
 					if u, roots, seed, ok := parseHistory(f[2:]); ok {
 						o := runHistory(u, roots, seed, 7)
+						for try := 0; try < 4 && o.firstBad == ""; try++ { // scheduling-dependent failures
+							o = runHistory(u, roots, seed, 7)
+						}
 						detail += "\nuniverse:\n" + u.text() + "roots (history order): " + fmt.Sprint(roots) + "\n" + o.firstBad
 					}
 				}
@@ -228,7 +231,7 @@ func run(c *fw.Ctx) {
 
 	// 3. gadget families: the same (package, requirement) pair reached from
 	// different roots; Maven exclusions on nested dependencies (gadget.go)
-	ng := c.N(70, 700)
+	ng := c.N(70, 500)
 	for _, sys := range []resolve.System{resolve.NPM, resolve.Maven, resolve.PyPI} {
 		for i := 0; i < ng; i++ {
 			u, roots := genGadget(c.Rng, sys)
